@@ -79,6 +79,11 @@ _CAT = {}
 def cat(tier):
     if tier not in _CAT:
         c = [('hier-' + n, s) for n, s in catalog.hierarchy_models(3 if tier == 'quick' else 4)]
+        if tier == 'quick':
+            # a slice of the four-class shapes (the diamond and the three-way fork need four classes)
+            for shape in ('diamond', 'fork3', 'chainfork'):
+                for adds in (['req'] * 3, ['req', 'opt', 'none']):
+                    c.append(('hier4-' + shape, catalog.hierarchy(shape, adds, None, None)))
         c += discriminating_models(tier) + enum_union_models()
         _CAT[tier] = c
     return _CAT[tier]
@@ -164,7 +169,7 @@ def run_unit(unit, tier):
     trees = docs_for(spec)
     perms = list(itertools.permutations(range(len(b.registered))))
     loads = {}
-    for variants in expected_types(spec, unions=not fam.startswith('onerec')):
+    for variants in expected_types(spec, unions=not fam.startswith(('onerec', 'hier4'))):
         # with a K-member model the K-member Union orders are the permutations explored
         for d in trees:
             for tg in tags:
